@@ -13,7 +13,7 @@ use refmodel::json::Class;
 use refmodel::secp::Curve;
 use refmodel::txjson::{self, Spell};
 
-pub const CHANNELS: [&str; 8] = ["file", "dash-pipe", "dev-stdin-pipe", "proc-fd0-pipe", "dev-stdin-regular-file", "symlink", "named-pipe", "default-pipe"];
+pub const CHANNELS: [&str; 11] = ["file", "dash-pipe", "dev-stdin-pipe", "proc-fd0-pipe", "dev-stdin-regular-file", "symlink", "named-pipe", "default-pipe", "dash-regular-file", "dash-regular-file-at-offset", "default-regular-file-at-offset"];
 
 struct Case { label: String, argv: Vec<String>, content: Vec<u8>, want: Vec<u8>, has_default: bool }
 
@@ -49,11 +49,11 @@ pub fn run(ctx: &Ctx, p: &str) {
     // the environment's other legal answer: short reads (every read(2) returns at most n bytes), owned through the LD_PRELOAD shim
     let chunks: Vec<usize> = if ctx.quick() { vec![0, 1, 4096] } else { vec![0, 1, 2, 7, 4096, 65_535] };
     let total = (cases.len() * CHANNELS.len() * chunks.len()) as u64;
-    ctx.sweep("input-channels", "every input-reading command x contents needing zero, one and several reads x 8 ways the input can arrive x read(2) answering in full or with at most 1 / 4096 bytes per call (thorough: 1, 2, 7, 4096, 65535) (regular file, `-` + pipe, /dev/stdin + pipe, /proc/self/fd/0 + pipe, /dev/stdin + regular file, symbolic link, named pipe, no argument + pipe where the argument is optional): the reference output every time", total, |i| {
+    ctx.sweep("input-channels", "every input-reading command x contents needing zero, one and several reads x 11 ways the input can arrive x read(2) answering in full or with at most 1 / 4096 bytes per call (thorough: 1, 2, 7, 4096, 65535) (regular file, `-` + pipe, /dev/stdin + pipe, /proc/self/fd/0 + pipe, /dev/stdin + regular file, symbolic link, named pipe, no argument + pipe where the argument is optional, `-` + regular file, `-` / no argument + regular file already positioned behind a consumed preamble): the reference output every time", total, |i| {
         let chunk = chunks[i as usize % chunks.len()]; let k = i / chunks.len() as u64;
         let c = &cases[k as usize / CHANNELS.len()]; let ch = CHANNELS[k as usize % CHANNELS.len()];
         if chunk == 1 && c.content.len() > 100_000 { return; }
-        if ch == "default-pipe" && !c.has_default { return; }
+        if (ch == "default-pipe" || ch == "default-regular-file-at-offset") && !c.has_default { return; }
         let argv: Vec<&str> = c.argv.iter().map(|s| s.as_str()).collect(); let mut cmd = Cmd::new(&argv); let mut files: Vec<String> = Vec::new();
         match ch {
             "file" => { let f = scratch_file("input-channels", i, "in", &c.content); cmd = cmd.arg(&f); files.push(f); }
@@ -62,6 +62,11 @@ pub fn run(ctx: &Ctx, p: &str) {
             "proc-fd0-pipe" => { cmd = cmd.arg("/proc/self/fd/0").stdin(&c.content); }
             "dev-stdin-regular-file" => { let f = scratch_file("input-channels", i, "in", &c.content); cmd = cmd.arg("/dev/stdin").stdin_from_file(&f); files.push(f); }
             "symlink" => { let f = scratch_file("input-channels", i, "in", &c.content); let l = format!("{f}.lnk"); let _ = std::fs::remove_file(&l); std::os::unix::fs::symlink(&f, &l).expect("symlink"); cmd = cmd.arg(&l); files.push(f); files.push(l); }
+            "dash-regular-file" => { let f = scratch_file("input-channels", i, "in", &c.content); cmd = cmd.arg("-").stdin_from_file(&f); files.push(f); }
+            // standard input is a regular file that is already positioned behind a preamble another reader consumed
+            // (`{ read header; hdwallet ... -; } < file`): the input is what follows the position
+            "dash-regular-file-at-offset" | "default-regular-file-at-offset" => { let pre: &[u8] = if i % 2 == 0 { b"# header line\n" } else { b"0xabc" }; let f = scratch_file("input-channels", i, "in", &[pre, &c.content[..]].concat());
+                if ch.starts_with("dash") { cmd = cmd.arg("-"); } cmd = cmd.stdin_from_file_at(&f, pre.len() as u64); files.push(f); }
             "named-pipe" => { let f = scratch_file("input-channels", i, "fifo", b""); cmd = cmd.arg(&f).fifo(&f, &c.content); files.push(f); }
             _ => { cmd = cmd.stdin(&c.content); }
         }
